@@ -514,8 +514,10 @@ def dynamic_stage(spec, R, rng, n, burst=False):
             else:
                 R.count("oracle-violations")
                 if sum(1 for x in R.violations if x["kind"] == "oracle") < 5:
-                    small = spec.shrink(line, lambda ln: spec.oracle(ln, run_lines(go, [ln], env=goenv())[0]) not in (None,) and
-                                        spec.oracle(ln, run_lines(go, [ln], env=goenv())[0])[0] == "violation")
+                    def _still_fails(ln):
+                        vv = spec.oracle(ln, run_lines(go, [ln], env=goenv())[0])
+                        return vv is not None and vv[0] == "violation"
+                    small = spec.shrink(line, _still_fails)
                     gs = run_lines(go, [small], env=goenv())[0] if small != line else g
                     R.violation("oracle", v[1], {"case": small, "impl_output": gs, "original_case": line,
                                                  "driver": spec.go_driver, "how": "echo '<case>' | .build/bin/drv_%s" % spec.go_driver})
